@@ -211,8 +211,11 @@ impl Table {
         buffer.push_untyped_cols(columns);
     }
 
-    /// Creates a new partition from current buffer and returns it.
-    pub(crate) fn batch(&self) -> Option<Arc<Partition>> {
+    /// Creates a new partition from current buffer and returns it together with its columns.
+    /// The columns are captured before the partition is added to the partition map: as soon as it is visible,
+    /// queries may add placeholder handles for columns it lacks and its columns may be evicted, so the handles
+    /// can no longer be relied on to hold exactly the partition's data.
+    pub(crate) fn batch(&self) -> Option<(Arc<Partition>, Vec<Arc<Column>>)> {
         let mut buffer = self.frozen_buffer.lock().unwrap();
         if buffer.len() == 0 {
             return None;
@@ -229,6 +232,11 @@ impl Table {
             self.lru.clone(),
             partition_offset,
         );
+        let columns: Vec<Arc<Column>> = new_partition
+            .clone_column_handles()
+            .into_iter()
+            .map(|c| c.try_get().as_ref().unwrap().clone())
+            .collect();
         let arc_partition;
         {
             let mut partitions = self.partitions.write().unwrap();
@@ -238,7 +246,7 @@ impl Table {
         for (id, column) in keys {
             self.lru.put(ColumnLocator::new(self.name(), id, &column));
         }
-        Some(arc_partition)
+        Some((arc_partition, columns))
     }
 
     /// Determines if partitions should be compacted. If so, returns the maximal list of partitions to compact.
